@@ -38,18 +38,28 @@ NEEDS.update({
  'C19b': "squash(method='logistic', keep_sign=True) on an input containing an exact zero",
  'C20b': 'one SubsequenceSearch object: a k-limited query (best_match / kbest_matches(k)) followed by kbest_matches(k=None)',
 })
+NEEDS.update({
+ 'C01c': 'Python dtw.distance with an explicit window between about len/2 and len (the compact buffer spans the whole row, so the lower-left band edge is no longer enforced) and series 1 lagging series 2 by at least the window',
+ 'C03c': 'C warping_paths with a narrow window (region C rows) together with use_pruning or max_dist: the row is abandoned one column early, the returned distance becomes inf or a different finite number',
+ 'C07c': 'OpenMP distance matrix with a triangular block whose row end differs from its column end (re != ce) and at least two non-empty rows',
+ 'C08c': 'C lb_keogh with series 1 longer than series 2 (any window): reads up to l1-l2 doubles past the end of series 2',
+ 'C10c': 'Python dtw.distance with len(s1) < len(s2) and a tuple psi whose series-1 and series-2 entries differ',
+ 'C11c': 'C engine on multivariate series with use_pruning or a finite max_dist, on a row where the pruning start column lies past the band start',
+ 'C16c': 'KMeans on 1-D series with psi in dists_options (lb_keogh pruning of the nearest-mean search ignores psi)',
+ 'C17c': 'needleman_wunsch with a direction-dependent substitution (make_substitution_fn dictionary with (a,b) and (b,a) scored differently)',
+})
 EXTRA = {'C02': ['C10'], 'C10': ['C02'], 'C11': ['C09']}   # cross detections confirmed by hand earlier
 ROUND2_NOTE = ('round 2: run against the scratch worktree that carries the change (VERIF_REPO=/tmp/wt_<id>, sources compiled from there) while /repo '
                'was busy with thorough runs; see DESIGN 9.5 for the later run with the change applied to /repo')
 
 def main():
     sweep = {}
-    for f in glob.glob('/tmp/sweep_*.log') + glob.glob('/tmp/sweep_wt*.log') + glob.glob('/tmp/sweep2_*.log'):
+    for f in glob.glob('/tmp/sweep_*.log') + glob.glob('/tmp/sweep_wt*.log') + glob.glob('/tmp/sweep2_*.log') + glob.glob('/tmp/sweep3_*.log'):
         for line in open(f):
-            m = re.match(r'mutation=(C\d+b?) check=(C\d+) rc=(\d+)\s*(.*)', line)
+            m = re.match(r'mutation=(C\d+[bc]?) check=(C\d+) rc=(\d+)\s*(.*)', line)
             if m:
                 sweep.setdefault(m.group(1), {})[m.group(2)] = (int(m.group(3)), m.group(4).strip())
-    for pid in sorted(p_ for p_ in NEEDS if (p_.endswith("b") or not os.environ.get("ROUND2"))):
+    for pid in sorted(p_ for p_ in NEEDS if (p_[-1] in os.environ.get("ROUND", "bc") or not os.environ.get("ROUND"))):
         d = os.path.join(ROOT, 'seeded', pid)
         files = [l[6:].strip() for l in open(os.path.join(d, 'patch.diff')) if l.startswith('+++ b/')]
         conf = open(os.path.join(d, 'confirm.log')).read() if os.path.exists(os.path.join(d, 'confirm.log')) else ''
@@ -70,7 +80,7 @@ def main():
             },
             'checks_run_with_change_applied_to_repo': caught,
             'caught_by': sorted(set([c for c, x in caught.items() if x['exit'] == 1] + EXTRA.get(pid, []))),
-            'how_run': ROUND2_NOTE if pid.endswith('b') else 'change applied to /repo with git apply, check run, git checkout -- .',
+            'how_run': ROUND2_NOTE if (pid[-1] in 'bc' and os.environ.get('WORKTREE_RUN')) else 'change applied to /repo with git apply, check run, git checkout -- .',
             'notes': 'git -C /repo apply seeded/%s/patch.diff; ./check <ID>; git -C /repo checkout -- .' % pid,
         }
         json.dump(meta, open(os.path.join(d, 'meta.json'), 'w'), indent=1)
